@@ -2,6 +2,7 @@
 
 Theorems (lean/CffiVerif/Props/C14.lean): slot_roundtrip, packing_in_bounds,
 result_area_large_enough (+ result_fits_without_arguments, slot_stride_is_source),
+by_reference_sets_agree (generator's by-reference classes/names vs. the flag test of the reader),
 slot_unsafe_primitives, complex_argument_corrupted_witness,
 complex_last_argument_out_of_bounds_witness, result_is_conversion,
 small_int_result_widened, extern_python_result_plain, error_value_returned
@@ -926,7 +927,8 @@ def part_a(ctx, nsigs, nscen, model=True):
 def translators(ctx):
     """Generated/ExternPySize.lean (size rule of the argument/result area, from recompiler.py) and
     Generated/Platform.lean (sizeof of every primitive type, by gcc): result_area_large_enough is stated over both."""
-    return [externpy_size.translator(ctx), lambda: _prim_tr.translate_platform(common.REPO, ctx.scratch)]
+    return [externpy_size.translator(ctx), lambda: _prim_tr.translate_primitives(common.REPO),
+            lambda: _prim_tr.translate_platform(common.REPO, ctx.scratch)]
 
 
 def _explore(ctx):
